@@ -95,6 +95,94 @@ class Spec(ProgramSpec):
         return 'containers_%d' % sum(1 for c in case[2] if c[0] in 'CF')
 
 
+def unescape_meta(data):
+    """the same file as a producer that does not escape non-ASCII characters in JSON would
+    write it: in every metadata section `\\u00e9` becomes the literal character, encoded with
+    the section's effective encoding (own option, else the nearest declaring container); the
+    `length` option is adjusted.  A reader that decodes metadata with another encoding now
+    fails or yields a different value."""
+    import re
+    out = bytearray()
+    pos = 0
+    scope = []
+    while pos < len(data):
+        e = data.find(b'\n', pos)
+        if e < 0 or not data.startswith(b'#', pos):
+            return bytes(out) + data[pos:]
+        hdr = data[pos:e]
+        pos = e + 1
+        m = re.match(rb'#(\.{0,3})(diffx|change|file|preamble|meta|diff):', hdr)
+        if not m:
+            out += hdr + b'\n'
+            continue
+        level = len(m.group(1))
+        em = re.search(rb'(?:^|[ ,])encoding=([A-Za-z0-9_.-]+)', hdr)
+        own = em.group(1).decode() if em else None
+        lm = re.search(rb'(?:^|[ ,])length=([0-9]+)', hdr)
+        if m.group(2) in (b'diffx', b'change', b'file'):
+            del scope[level:]
+            scope.append(own)
+            out += hdr + b'\n'
+            continue
+        n = int(lm.group(1))
+        content = data[pos:pos + n]
+        pos += n
+        if m.group(2) == b'meta':
+            enc = own or next((x for x in reversed(scope) if x), None)
+            if enc:
+                try:
+                    content2 = content.decode(enc).replace('\\u00e9', '\xe9').encode(enc)
+                    if enc.lower().replace('_', '-') in ('utf-16', 'utf-32'):
+                        content2 = content2      # BOM already part of the first encode
+                    hdr = hdr.replace(b'length=%d' % n, b'length=%d' % len(content2))
+                    content = content2
+                except UnicodeError:
+                    pass
+        out += hdr + b'\n' + content
+    return bytes(out)
+
+
+class ForeignMeta(Spec):
+    """third stream: the specification's bytes with unescaped non-ASCII JSON, read by the real
+    reader and the reader model; expected records are unchanged (JSON values are equal)"""
+
+    def cases(self, ctx, budget, rng):
+        maxlen, nrand = budget
+        for case in Spec.cases(self, ctx, (max(1, maxlen - 1), nrand // 2), rng):
+            yield case
+
+    def foreign(self, case):
+        expect, secs = self.spec(case)
+        return unescape_meta(expect), secs
+
+    def request(self, case):
+        return 'read 96 %s' % common.enc_bytes(self.foreign(case)[0])
+
+    def impl(self, case):
+        return adapters.impl_read(self.foreign(case)[0])
+
+    def oracle(self, case, impl_res):
+        data, secs = self.foreign(case)
+        recs, err = adapters.read_records(data)
+        bad = []
+        if err is not None:
+            bad.append('reader raised %s on a file with unescaped non-ASCII JSON: %s' % (type(err).__name__, err))
+        got = [adapters.show_record(r, canon=True) for r in recs]
+        want = specdoc.show_sections(secs)
+
+        def strip_len(x):
+            import re
+            return re.sub(r'6c656e677468=i\d+', 'len', x)
+        if err is None and [strip_len(x) for x in got] != [strip_len(x) for x in want]:
+            i = next((k for k in range(min(len(got), len(want))) if strip_len(got[k]) != strip_len(want[k])), min(len(got), len(want)))
+            bad.append('metadata with unescaped non-ASCII JSON: record %d differs (decoded with the wrong effective encoding?): '
+                       'got %s expected %s' % (i, (got[i] if i < len(got) else '<none>')[:300], (want[i] if i < len(want) else '<none>')[:300]))
+        return [{'what': b, 'program': gen.program_to_json(case), 'foreign_meta': True} for b in bad]
+
+    def key(self, case, impl_res):
+        return ('fm',) + Spec.key(self, case, impl_res)
+
+
 class WriterSide(Spec):
     """second correspondence stream: the writer model on the same programs"""
 
@@ -118,12 +206,17 @@ def explore(ctx, escalate=False, hint=None):
     rule = ('every container history C(C|F)^(n-1) for n <= %d x every declare/omit assignment over {none, utf-8, utf-16, '
             'latin1} x 3 main encodings (exhaustive) + %d random histories of 4..14 containers with own encodings on '
             'content sections; each container followed by text/metadata sections that omit the encoding; writer bytes and '
-            'reader records compared with the specification (nearest declaring ancestor) and with the Lean models; '
+            'reader records compared with the specification (nearest declaring ancestor) and with the Lean models; the '
+            'same files with unescaped non-ASCII JSON in their metadata sections (another producer) through the reader; '
             'distinct by (container kinds, declarations, main encoding)' % budget)
     r1 = base.explore_generic(ctx, Spec(ctx.tables), budget, rule, exhaustive=True, chunk=1000)
     r2 = base.explore_generic(ctx, WriterSide(ctx.tables), budget, rule, exhaustive=True, chunk=1000)
     r1['evaluations'] += r2['evaluations']
     r1['disagreements'] += r2['disagreements']
+    r3 = base.explore_generic(ctx, ForeignMeta(ctx.tables), budget, rule, exhaustive=True, chunk=1000)
+    r1['evaluations'] += r3['evaluations']
+    r1['disagreements'] += r3['disagreements']
+    r1['violations'] += r3['violations']
     return r1
 
 
